@@ -222,7 +222,11 @@ class RowFlow:
                 if len(defs) == 1 and isinstance(defs[0].value, (ast.BoolOp, ast.Compare, ast.UnaryOp)):
                     work = [(c2, p2, d + 1) for c2, p2 in split_cond(defs[0].value, p)] + work
                     continue
-            out.append(self._atom(c, p, elem_names))
+            at = self._atom(c, p, elem_names)
+            out.append(at)
+            if at.kind == "cmp" and at.op in ("is not", "!=") and at.value is None and "None" in at.text:
+                # row.get(k) is not None / row[k] is not None: the key is present as well
+                out.append(Atom("haskey", at.keys, "in", None, at.text + " (implies the key is present)"))
         return out
 
     def _row_key(self, e: ast.AST, elem_names: Set[str]) -> Optional[ValSet]:
